@@ -977,8 +977,8 @@ func (g *G) idiom(d int, nest bool) *m.Node {
 	}
 }
 
-// caseTwins renames one variable to the upper-case spelling of another one (b0 / B0): names are
-// case-sensitive, the two stay different variables with their own values. Call it after everything
+// caseTwins renames one variable to the upper-case spelling of another one (b0 / B0), or to a dotted
+// extension of it (b0 / b0.x): names are case-sensitive and whole, the two stay different variables with their own values. Call it after everything
 // that derives a type from a variable's name.
 func caseTwins(t *rapid.T, tree *m.Node, u *Universe) {
 	if len(u.Vars) < 2 || rapid.IntRange(0, 3).Draw(t, "casetwins") != 0 {
@@ -990,6 +990,12 @@ func caseTwins(t *rapid.T, tree *m.Node, u *Universe) {
 		j++
 	}
 	twin := strings.ToUpper(u.Vars[i].Name)
+	switch rapid.IntRange(0, 3).Draw(t, "twinkind") {
+	case 1: // ... or to a dotted extension of it (user / user.age): names are whole names, not paths
+		twin = u.Vars[i].Name + ".x"
+	case 2:
+		twin = u.Vars[i].Name + "." + u.Vars[i].Name
+	}
 	if twin == u.Vars[i].Name || u.Var(twin) != nil {
 		return
 	}
